@@ -5,13 +5,18 @@ import itertools
 
 from ..front import AnalysisError, dotted, fname, is_self_attr, src, walk_no_nested, const_value
 from ..kind import KindEngine, Seeds
-from ..sym import Canon, BoolTracker, eval_bool, tree_atoms
+from ..sym import Canon, BoolTracker, eval_bool, tree_atoms, inline_locals
 
 LEVEL = "other"
 OPT = "desolver/utilities/optimizer.py"
 
 BRENT_NAMES = {"a": "X", "b": "X", "c": "X", "d": "X", "s": "X", "lower_bound": "X", "upper_bound": "X",
                "fa": "G", "fb": "G", "fc": "G", "fs": "G", "tol": "X"}
+
+
+def _arith_env(fn):
+    """single-assignment locals that abbreviate an arithmetic expression (not a function evaluation)"""
+    return {k: v for k, v in inline_locals(fn).items() if isinstance(v, (ast.BinOp, ast.UnaryOp))}
 
 
 def brent_seeds():
@@ -48,7 +53,7 @@ def _scalar_tree(fn):
     loop = [st for st in fn.body if isinstance(st, ast.While)]
     if len(loop) != 1:
         raise AnalysisError("brentsroot: main loop not found")
-    bt = BoolTracker()
+    bt = BoolTracker(canon=Canon(env=_arith_env(fn)))
     bt.run(loop[0].body)
     if "bisect_now" not in bt.trees:
         # the name may differ: take the value assigned to mflag
@@ -68,12 +73,8 @@ def _vector_tree(fn):
             upto = i
     if upto is None:
         raise AnalysisError("brentsrootvec: bisection assignment `s[mask] = (a[mask] + b[mask]) / 2` not found")
-    # start tracking at cond1
-    start = next((i for i, st in enumerate(body) if isinstance(st, ast.Assign) and src(st.targets[0]) == "cond1"), None)
-    if start is None:
-        raise AnalysisError("brentsrootvec: cond1 not found")
-    bt = BoolTracker()
-    bt.run(body[start:upto])
+    bt = BoolTracker(canon=Canon(env=_arith_env(fn)))
+    bt.run(body[:upto])
     maskname = src(body[upto].targets[0].slice)
     if maskname not in bt.trees:
         raise AnalysisError("brentsrootvec: the bisection mask `%s` is not a tracked boolean" % maskname)
@@ -152,9 +153,15 @@ def safeguard(repo, run):
         run.report("C14.2", OPT, loop_s, "brentsroot: mflag is not set to the bisection decision of the iteration", text="scalar mflag update")
     # convergence atoms
     def conv_atoms(loop):
-        bt = BoolTracker(tracked={"conv"})
+        f_ = loop
+        while not isinstance(f_, ast.FunctionDef):
+            f_ = f_._parent
+        bt = BoolTracker(canon=Canon(env=_arith_env(f_)))
+        # only the statements that build the convergence flag: the last plain assignments to `conv` and the booleans they use
         bt.run(loop.body)
-        return bt.trees.get("conv"), bt
+        # the iteration cap may be folded into conv (`conv & (numiter <= 64)`): take the value before that conjunction too
+        hist = [t for (_, t) in bt.history.get("conv", []) if t is not None]
+        return (hist[0] if hist else None), bt
     cs, _ = conv_atoms(loop_s)
     cv, _ = conv_atoms(loop_v)
     if cs is not None and cv is not None:
@@ -276,7 +283,9 @@ def endpoints(repo, run):
         if isinstance(st, ast.Return) and isinstance(st.value, ast.Tuple) and len(st.value.elts) >= 2 and not (isinstance(st.value.elts[1], ast.Constant)):
             succ.append(st.value.elts[1])
     for e in succ:
-        tree = BoolTracker().tree(e)
+        btf = BoolTracker(canon=Canon(env=_arith_env(fn)))
+        btf.run(fn.body)
+        tree = btf.tree(e)
         atoms = tree_atoms(tree)
         verdict = {}
         okk = True
